@@ -110,6 +110,8 @@ def gen_search(rng, big=False):
         if outs or rng.random() < 0.5:
             adj[i] = outs  # nodes without an entry: neighbours() returns []
     start = rng.randrange(n)
+    if adj and rng.random() < 0.85:
+        start = rng.choice([i for i in adj if adj[i]] or [start])
     r = rng.random()
     if r < 0.12:
         goal = ("none",)
